@@ -427,8 +427,32 @@ func genScenario(c *caseRun, rng *rand.Rand, steps int) {
 			if head > first {
 				first = head
 			}
-			c.do(Event{Kind: "transition", From: sh[0], Claim: sh[1], Round: first + 2 + uint64(rng.Intn(2)), Vacant: pickVacant(rng, sh[0], w.Me)})
+			firstNew := first + 2 + uint64(rng.Intn(2))
+			c.do(Event{Kind: "transition", From: sh[0], Claim: sh[1], Round: firstNew, Vacant: pickVacant(rng, sh[0], w.Me)})
 			transitioned = true
+			if rng.Intn(2) == 0 && !c.syncOn {
+				// drive the chain across the switch, one partial of the live group at a time: the rounds
+				// before the switch need the OLD threshold, the rounds after it the NEW one (of the new
+				// polynomial), not one partial less
+				for guard := 0; w.Head() < firstNew+1 && guard < 8; guard++ {
+					if w.CurrentRound() < w.Head()+1 {
+						c.advance(w.Genesis + int64(w.CurrentRound())*w.Period - w.Now())
+					}
+					lv := 0
+					for i, e := range w.Epochs {
+						if e.Group == w.H.VerifLiveGroup() {
+							lv = i
+						}
+					}
+					want := w.Head() + 1
+					for j := 0; j < w.Epochs[lv].N && w.Head() < want; j++ {
+						if j == w.Me || !w.Epochs[lv].IsMember(j) {
+							continue
+						}
+						c.do(Event{Kind: "part", From: j, Claim: j, Round: want, Prev: "ref", Ep: lv})
+					}
+				}
+			}
 			continue
 		}
 		if head == cur && cur >= 1 && c.r.ticking && !c.syncOn && c.ticksSeen >= 1 && rng.Intn(9) == 0 {
